@@ -329,6 +329,17 @@ func (r *replicator) processHash(ctx context.Context, item processItem) ([]cid.C
 			r.logger.Warn("ignoring an entry that belongs to another log", zap.String("cid", e.GetHash().String()))
 			return nil, nil
 		}
+
+		// the address an entry was fetched under must be the address of its
+		// content, as Sync requires of an announced head: the decoder accepts
+		// every encoding of an entry (and a block store may answer for any CID
+		// that carries the multihash of a block it holds), so the same signed
+		// entry could otherwise be merged again and again under new addresses
+		canonical, err := r.store.IO().Write(ctx, r.store.IPFS(), e, nil)
+		if err != nil || !canonical.Equals(e.GetHash()) {
+			r.logger.Warn("ignoring an entry whose content does not hash to its address", zap.String("cid", e.GetHash().String()))
+			return nil, nil
+		}
 	}
 
 	r.muBuffer.Lock()
